@@ -14,6 +14,7 @@
 #include <unistd.h>
 #include <fcntl.h>
 #include <errno.h>
+#include <time.h>
 
 const char *harness_name = "h_hostile" ;
 
@@ -146,8 +147,10 @@ static int sys_budget_hook (int kind, int fd, sf_count_t requested, sf_count_t *
 void vl_budget_exceeded (const char *what) ;
 
 /* script: -1 = the full script, else op index a (and b if >= 0) */
+static double cpu_s (void) { struct timespec t ; clock_gettime (CLOCK_PROCESS_CPUTIME_ID, &t) ; return t.tv_sec + t.tv_nsec * 1e-9 ; }
+
 static uint64_t execute (const Seed *s, const unsigned char *img, sf_count_t len, int route, int a, int b)
-{	SF_INFO info ; SNDFILE *sf = NULL ; int fds [2] = { -1, -1 }, rc ;
+{	SF_INFO info ; SNDFILE *sf = NULL ; int fds [2] = { -1, -1 }, rc ; double c0 = cpu_s () ;
 	tr = VL_H0 ;
 	memset (&info, 0, sizeof (info)) ;
 	if (s->raw_format) { info.format = s->raw_format ; info.channels = s->raw_ch ; info.samplerate = s->raw_rate ; }
@@ -184,6 +187,9 @@ static uint64_t execute (const Seed *s, const unsigned char *img, sf_count_t len
 		}
 	if (route != R_VIO) { sio_set_fault (NULL, NULL) ; sio_real_close (fds [0]) ; }
 	vl_count_transitions (sf ? (a < 0 ? O_NOPS + 2 : b >= 0 ? 4 : 3) : 1) ; vl_count_states (1) ;
+	/* processor time, not wall clock (independent of machine load): an execution on at most 64 KiB of input normally takes about a
+	** millisecond; ten seconds means work proportional to a size the input only claims */
+	if (cpu_s () - c0 > 10.0) V03 ("time-not-bounded-by-input", "%.1f s of processor time for %lld bytes of input", cpu_s () - c0, (long long) len) ;
 	return tr ;
 }
 
